@@ -16,7 +16,7 @@
 (* Whether the materialised array is in the codec's documented domain is   *)
 (* re-checked by StoreTrace!Accepts on the actual values.                  *)
 (***************************************************************************)
-EXTENDS Integers, Sequences, TLC
+EXTENDS Integers, Sequences, TLC, Json, IOUtils
 
 CONSTANTS Tier,      \* "quick" | "thorough"
           Purpose    \* "c02" | "c03" | "c13" | "c16" | "c06"
@@ -68,7 +68,14 @@ MinAtShapes == {<<"lin", -1, d, 1, 0>> : d \in {239, 240, 241, 2286, 2287, 2288,
 \* (flatblk, zero-width for the delta variants); the parameter's bit b%8 marks
 \* block b: first, second, last of three, all, alternating
 ZeroBlockShapes == {<<sh, m>> : sh \in {"zblk", "flatblk"}, m \in {1, 2, 4, 5, 255, 254}}
-AllShapes == CoreShapes \cup WidthShapes \cup OrderShapes \cup RepeatShapes \cup WideShapes
+\* integer constants < 2^31 found in the sources of the tree under test (one {"n": m} per line of
+\* IOEnv.MINED): progressions whose minimum, and whose range, is such a constant or a neighbour
+MinedRecs == ndJsonDeserialize(IOEnv.MINED)
+MinedNat == {MinedRecs[i].n : i \in 1..Len(MinedRecs)}
+MinedShapes == {<<"lin", -1, m + d, 1, 0>> : m \in MinedNat, d \in {-1, 0, 1}}
+               \cup {<<"lin", -1, 7, 1, m + d - 16>> : m \in MinedNat, d \in {-1, 0, 1}}
+MinedCodecs == {<<"for", 0>>, <<"pfor", 95>>, <<"delta_u", 0>>, <<"bp64", 0>>, <<"adaptive", -1>>}
+AllShapes == MinedShapes \cup CoreShapes \cup WidthShapes \cup OrderShapes \cup RepeatShapes \cup WideShapes
              \cup PatchShapes \cup SamplerShapes \cup MinAtShapes \cup ZeroBlockShapes
 P(sh, i) == IF Len(sh) >= i + 1 THEN sh[i + 1] ELSE 0
 HeaderCodecs == {"for", "for_batch", "pfor", "delta_u", "delta_s", "adaptive"}
@@ -90,7 +97,9 @@ Applicable(c, n, s) ==
             \/ c[1] \in {"pfor", "adaptive"} /\ n \in {127, 256, 2288} /\ s \in PatchShapes
             \/ c[1] \in {"rle", "rle_hdr", "dict", "adaptive"} /\ n \in {241, 2288} /\ s \in RepeatShapes
             \/ c[1] \in HeaderCodecs /\ n \in {2, 17, 241} /\ s \in MinAtShapes
+            \/ c \in MinedCodecs /\ n = 17 /\ s \in MinedShapes /\ Purpose \in {"c02", "c06", "c16"}
             \/ c[1] \in BlockCodecs /\ n \in {128, 129, 130, 256, 257, 385} /\ s \in ZeroBlockShapes
+         /\ (s \in MinAtShapes \/ ~(s \in MinedShapes) \/ (c \in MinedCodecs /\ n = 17 /\ Purpose \in {"c02", "c06", "c16"}))
          /\ (s \in MinAtShapes => c[1] \in HeaderCodecs /\ n \in {2, 17, 241})
          /\ (s \in ZeroBlockShapes => c[1] \in BlockCodecs /\ n \in {128, 129, 130, 256, 257, 385})
          /\ (s[1] = "periodic" => n >= 2287)
